@@ -12,6 +12,8 @@
 //	bfi <tok> | bfinil | bfiraw <hex>              HandleRPCEndpointGetBlocksFromID
 //	sync [cap=k] [stop=h] [badstatic=h] [badexec=h] [common=tok|none] [force=fast|block]
 //	                                               requester node synchronises with such a peer over loopback
+//	     [restart=1] [sy=1]                        (pseudo-property C04SYNC only, c04sync.go: requester restarted right
+//	                                               before; forced synchroniser run with the Executer's syncying flag set)
 //
 // Tokens: p<h> responder block, q<h> requester block, a<h> tampered/relinked block, u<k> unknown id,
 // x<hex> literal id bytes.
